@@ -375,11 +375,43 @@ func (c *Contract) sweepOnly() bool {
 	return true
 }
 
+// thoroughShapes: in the thorough tier `shape-thorough path = a | b` adds
+// alternatives to the contract's `shape path = …` clause (wider scenarios: more
+// validators, deeper nesting, more branches).
+var thoroughShapes bool
+
 func (c *Contract) clauses(kind string) []*Clause {
 	var out []*Clause
 	for _, cl := range c.Clauses {
 		if cl.Kind == kind {
 			out = append(out, cl)
+		}
+	}
+	if kind == "shape" && thoroughShapes {
+		for _, ex := range c.Clauses {
+			if ex.Kind != "shape-thorough" {
+				continue
+			}
+			eq := strings.Index(ex.Raw, "=")
+			if eq < 0 {
+				continue
+			}
+			path := strings.TrimSpace(ex.Raw[:eq])
+			merged := false
+			for i, cl := range out {
+				if q := strings.Index(cl.Raw, "="); q >= 0 && strings.TrimSpace(cl.Raw[:q]) == path {
+					cp := *cl
+					cp.Raw = cl.Raw + " | " + strings.TrimSpace(ex.Raw[eq+1:])
+					out[i] = &cp
+					merged = true
+					break
+				}
+			}
+			if !merged {
+				cp := *ex
+				cp.Kind = "shape"
+				out = append(out, &cp)
+			}
 		}
 	}
 	return out
@@ -420,7 +452,7 @@ func (s *Specs) contractFor(pkgPath, fn string) *Contract {
 	return nil
 }
 
-var clauseKinds = map[string]bool{"requires": true, "ensures": true, "assigns": true, "shape": true, "loop": true,
+var clauseKinds = map[string]bool{"requires": true, "ensures": true, "assigns": true, "shape": true, "shape-thorough": true, "loop": true,
 	"assume": true, "option": true, "props": true, "lemma": true, "invariant": true, "trusted": true, "errdrop": true, "maprange": true, "calls-ordered": true, "every-iteration-calls": true, "iteration-local": true, "flag": true, "wires": true, "arg-from": true, "guarded": true}
 
 var tagRe = regexp.MustCompile(`^\[([A-Za-z0-9_,\- ]+)\]\s*`)
